@@ -59,8 +59,9 @@ WorldBases == <<
 AllBases == Bases \o WorldBases
 VarNames == <<"_h0", "_h1", "_h2", "_h3", "_h4", "_h6", "_rv0", "_rv1", "_fa0", "_fa1", "_fv0", "_fv1", "_dvc", "_dv1", "_dv2", "_ret", "_i", "_l", "_c", "_n", "_v", "_len", "_ls", "_ll", "_ma0", "_ma1",
               "_sub", "_sh", "_e", "_a", "_te", "_h", "f1_sum", "f1_left", "f2_val", "f1__h0", "f1_local", "f1_target", "IFS", "PATH", "HOME", "PWD", "BASH", "RANDOM", "SECONDS", "LINENO", "REPLY", "OPTIND",
-              "LF", "OS", "x", "X", "I", "_", "__", "a1", "temp", "errorlevel", "ERRORLEVEL", "tmp9">>
-FuncNames == <<"_sah", "_sch", "_ssh", "_ech", "_slg", "_sls", "_stsh", "_stlh", "echo", "eval", "printf", "cat", "test", "read", "local", "exit", "set", "cd", "unset", "end", "main", "f", "F1">>
+              "LF", "OS", "x", "X", "I", "_", "__", "a1", "temp", "errorlevel", "ERRORLEVEL", "tmp9",
+              "lf", "_LEN", "_E", "_DVC", "_RV0", "_FA0", "_H1", "_SUB", "F1_SUM", "F2_VAL", "_I", "_V", "_L">>   \* cmd.exe folds case
+FuncNames == <<"_sah", "_sch", "_ssh", "_ech", "_slg", "_sls", "_stsh", "_stlh", "echo", "eval", "printf", "cat", "test", "read", "local", "exit", "set", "cd", "unset", "end", "main", "f", "F1", "_SAH", "_ECH", "_STLH", "_STSH", "_SLG", "EOF", "eof">>
 SetOf(s) == {s[i] : i \in 1..Len(s)}
 Mk(id, base, rho, world) == [id |-> id, base |-> base.name, prog |-> (IF world THEN [body |-> R!Rename(base.body, rho), world |-> [fs |-> <<>>, stdin |-> <<>>]] ELSE [body |-> R!Rename(base.body, rho)]),
                              check |-> (IF world THEN <<"fs", "alog">> ELSE <<>>)]
@@ -77,6 +78,13 @@ OneFunc == UNION {OneFuncOf(b) : b \in 1..Len(AllBases)}
 \* names differing only in letter case, and rotation of the program's own names
 CasePairs == {Mk("C10/" \o AllBases[b].name \o "/case/" \o nm[1] \o "-" \o nm[2], AllBases[b], [v |-> (AllBases[b].vars[1] :> nm[1]) @@ (AllBases[b].vars[2] :> nm[2]), f |-> Empty], IsWorld(AllBases[b]))
               : b \in 1..Len(AllBases), nm \in {<<"value", "Value">>, <<"x", "X">>, <<"_h0", "_H0">>, <<"path", "PATH">>, <<"aB", "Ab">>}}
+\* every pair of variables of a program spelled alike up to letter case, and both functions of a program spelled alike up to letter case
+PairNames == IF Quick THEN {<<"x", "X">>} ELSE {<<"x", "X">>, <<"aB", "Ab">>, <<"Item", "item">>}
+AllCasePairs == UNION {{Mk("C10/" \o AllBases[b].name \o "/case/" \o AllBases[b].vars[ij[1]] \o "+" \o AllBases[b].vars[ij[2]] \o "/" \o nm[1] \o "-" \o nm[2], AllBases[b],
+                           [v |-> (AllBases[b].vars[ij[1]] :> nm[1]) @@ (AllBases[b].vars[ij[2]] :> nm[2]), f |-> Empty], IsWorld(AllBases[b]))
+                        : ij \in {x \in (1..Len(AllBases[b].vars)) \X (1..Len(AllBases[b].vars)) : x[1] < x[2]}, nm \in PairNames} : b \in 1..Len(AllBases)}
+FuncCasePairs == {Mk("C10/" \o AllBases[b].name \o "/fncase/" \o nm[1] \o "-" \o nm[2], AllBases[b], [v |-> Empty, f |-> (AllBases[b].funcs[1] :> nm[1]) @@ (AllBases[b].funcs[2] :> nm[2])], IsWorld(AllBases[b]))
+                  : b \in {k \in 1..Len(AllBases) : Len(AllBases[k].funcs) = 2}, nm \in {<<"work", "Work">>, <<"FN", "fn">>, <<"_x", "_X">>}}
 Rot(vs) == [i \in 1..Len(vs) |-> vs[(i % Len(vs)) + 1]]
 Rotate == {Mk("C10/" \o AllBases[b].name \o "/rotate/vars", AllBases[b], [v |-> [x \in SetOf(AllBases[b].vars) |-> Rot(AllBases[b].vars)[CHOOSE i \in 1..Len(AllBases[b].vars) : AllBases[b].vars[i] = x]], f |-> Empty], IsWorld(AllBases[b]))
            : b \in 1..Len(AllBases)}
@@ -92,6 +100,6 @@ Compose == {Mk("C10/" \o q[1] \o "/compose/" \o t[1] \o "-" \o t[2] \o "-" \o t[
                IF o = "ab" THEN [v |-> (q[4] :> t[3]) @@ (q[5] :> t[4]), f |-> (IF q[2] = q[3] THEN (q[2] :> t[1]) ELSE (q[2] :> t[1]) @@ (q[3] :> t[2]))]
                ELSE [v |-> (q[4] :> t[4]) @@ (q[5] :> t[3]), f |-> (IF q[2] = q[3] THEN (q[2] :> t[2]) ELSE (q[2] :> t[2]) @@ (q[3] :> t[1]))], FALSE)
             : q \in Quads, t \in {x \in Templates : LegalT(x)}, o \in {"ab", "ba"}}
-All == Identity \cup OneVar \cup OneFunc \cup Compose \cup CasePairs \cup Rotate
+All == Identity \cup OneVar \cup OneFunc \cup Compose \cup CasePairs \cup AllCasePairs \cup FuncCasePairs \cup Rotate
 ASSUME ndJsonSerialize("fam.ndjson", SetToSeq(All))
 =============================================================================
